@@ -29,6 +29,15 @@ type wsScenario struct {
 	Again   int    `json:"again"` // second Wait this many ms after the first returned (0 = none)
 	Settle2 int    `json:"settle2"`
 	Unit    int    `json:"unit"` // ms per time unit
+	// Via: how the members get into the set before the first Wait: "" = Add, "merge" = Merge of another set
+	Via string `json:"via"`
+	// Between: changes of the membership between the first and the second Wait (Add, Merge of another set, Clear)
+	Between []wsBetween `json:"between"`
+}
+
+type wsBetween struct {
+	Op  string `json:"op"` // "add" | "merge" | "clear"
+	Ids []int  `json:"ids"`
 }
 
 func errKind(err error) string {
@@ -57,8 +66,16 @@ func runWSScenario(t *testing.T, sc wsScenario, log *Log) {
 			ids[chans[i]] = i
 		}
 		ws := statedb.NewWatchSet()
-		for _, m := range sc.Members {
-			ws.Add(chans[m])
+		if sc.Via == "merge" {
+			ws2 := statedb.NewWatchSet()
+			for _, m := range sc.Members {
+				ws2.Add(chans[m])
+			}
+			ws.Merge(ws2)
+		} else {
+			for _, m := range sc.Members {
+				ws.Add(chans[m])
+			}
 		}
 		var ctx context.Context
 		var cancel context.CancelFunc
@@ -114,6 +131,25 @@ func runWSScenario(t *testing.T, sc wsScenario, log *Log) {
 		doWait(sc.Settle)
 		if sc.Again > 0 {
 			time.Sleep(time.Duration(sc.Again) * unit)
+			for _, b := range sc.Between {
+				switch b.Op {
+				case "add":
+					for _, m := range b.Ids {
+						ws.Add(chans[m])
+						members[m] = true
+					}
+				case "merge":
+					ws2 := statedb.NewWatchSet()
+					for _, m := range b.Ids {
+						ws2.Add(chans[m])
+						members[m] = true
+					}
+					ws.Merge(ws2)
+				case "clear":
+					ws.Clear()
+					members = map[int]bool{}
+				}
+			}
 			doWait(sc.Settle2)
 		}
 		cancel()
